@@ -142,6 +142,14 @@ def translate_assignments(body, obj, params=()):
     return ops
 
 
+def read_members(repo):
+    """the data members only (what the harness visitors need), when the bodies cannot be translated"""
+    inc = os.path.join(repo, "mtest", "include", "MTest")
+    return {"CS": data_members(os.path.join(inc, "CurrentState.hxx"), "CurrentState"),
+            "SCS": data_members(os.path.join(inc, "StructureCurrentState.hxx"), "StructureCurrentState"),
+            "Study": data_members(os.path.join(inc, "StudyCurrentState.hxx"), "StudyCurrentState")}
+
+
 def read_sources(repo):
     inc = os.path.join(repo, "mtest", "include", "MTest")
     src = os.path.join(repo, "mtest", "src")
